@@ -345,6 +345,7 @@ func runC08(r *Run) {
 	for _, c := range c05Table.Cols {
 		zero[c.Name] = zeroValue(c.Type)
 	}
+	c08API(r, n/16)
 	for i := 0; i < n; i++ {
 		cfg := genIdxConfig(r.Rng)
 		// rows, unique under the schema indexes of cfg
